@@ -493,6 +493,7 @@ type CallSiteSpec struct {
 	AssertsB []*Clause // checked before the call
 	Ghost   []GhostSet // applied after the call
 	GhostB  []GhostSet // applied before the call
+	Havoc   []Expr     // caller-side frame: locations the callee may also write through pointers it was handed (assumption, listed)
 }
 
 type GhostSet struct {
@@ -921,6 +922,16 @@ func (db *SpecDB) LoadSpecFile(path, pkgPath string) error {
 					aw, ar = splitWord(ar)
 				}
 				switch aw {
+				case "havoc":
+					// at call f#k: havoc <loc>, <loc>: the call may write these caller-named locations (out-parameters reached
+					// through pointers inside interface values, which the callee's own contract cannot name)
+					for _, part := range splitTop(ar, ',') {
+						e, err := parse(part)
+						if err != nil {
+							return err
+						}
+						cs.Havoc = append(cs.Havoc, e)
+					}
 				case "assert":
 					c, err := mk("assert", ar)
 					if err != nil {
